@@ -7,9 +7,11 @@ import (
 	"fmt"
 	"os"
 	"sort"
+	"sync"
 	"time"
 
 	erpc "github.com/henrylee2cn/erpc/v6"
+	"github.com/henrylee2cn/erpc/v6/socket"
 )
 
 func init() { Drivers["hub"] = drvHub }
@@ -23,6 +25,7 @@ type HubScenario struct {
 		U     string          `json:"u"`
 		Index [][]string      `json:"index"`
 		Live  []string        `json:"live"`
+		Quiet bool            `json:"quiet"`
 	} `json:"steps"`
 }
 
@@ -78,7 +81,11 @@ func runHub(rec *Rec, sc *HubScenario) (drift []string) {
 	peer := erpc.NewPeer(erpc.PeerConfig{}, disc)
 	app := NewApp(rec, nil)
 	app.Routes(peer)
+	holds := map[string]*Behav{}
 	defer func() {
+		for _, b := range holds {
+			releaseHold(b)
+		}
 		fin := make(chan struct{})
 		go func() { peer.Close(); close(fin) }()
 		select {
@@ -89,6 +96,17 @@ func runHub(rec *Rec, sc *HubScenario) (drift []string) {
 	}()
 	sess := map[string]erpc.Session{}
 	remote := map[string]*Conn{}
+	var async sync.WaitGroup
+	waitAsync := func(d time.Duration) bool {
+		done := make(chan struct{})
+		go func() { async.Wait(); close(done) }()
+		select {
+		case <-done:
+			return true
+		case <-time.After(d):
+			return false
+		}
+	}
 	var order []string
 	known := map[string]bool{}
 	for i, st := range sc.Steps {
@@ -108,35 +126,80 @@ func runHub(rec *Rec, sc *HubScenario) (drift []string) {
 		case "setid":
 			known[st.U] = true
 			rec.Emit("Op", "op", "setid", "s", st.S, "u", st.U)
-			done := make(chan struct{})
-			go func() { sess[st.S].SetID(st.U); close(done) }()
-			select {
-			case <-done:
-			case <-time.After(3 * time.Second):
-				rec.Emit("Stuck", "op", "setid", "s", st.S)
-			}
+			async.Add(1)
+			go func(s erpc.Session, u string) { s.SetID(u); async.Done() }(sess[st.S], st.U)
+			time.Sleep(300 * time.Microsecond)
 		case "close":
 			rec.Emit("Op", "op", "close", "s", st.S, "u", "")
-			done := make(chan struct{})
-			go func() { sess[st.S].Close(); close(done) }()
-			select {
-			case <-done:
-			case <-time.After(3 * time.Second):
-				rec.Emit("Stuck", "op", "close", "s", st.S)
-			}
+			async.Add(1)
+			go func(s erpc.Session) { s.Close(); async.Done() }(sess[st.S])
+			time.Sleep(300 * time.Microsecond)
 		case "disc":
 			rec.Emit("Op", "op", "disc", "s", st.S, "u", "")
 			remote[st.S].Close()
 			s := sess[st.S]
-			WaitUntil(2*time.Second, func() bool {
-				select {
-				case <-s.CloseNotify():
-					return disc.Count(st.S) > 0
-				default:
-					return false
-				}
-			})
+			if holds[st.S] == nil {
+				WaitUntil(2*time.Second, func() bool {
+					select {
+					case <-s.CloseNotify():
+						return disc.Count(st.S) > 0
+					default:
+						return false
+					}
+				})
+			} else {
+				time.Sleep(time.Millisecond) // the disconnect waits for the running handler
+			}
+		case "starth":
+			rec.Emit("Op", "op", "starth", "s", st.S, "u", "")
+			tag := sc.ID + "." + st.S
+			b := &Behav{Hold: make(chan struct{}), Entered: make(chan struct{})}
+			holds[st.S] = b
+			app.SetBehav(tag, b)
+			raw := socket.NewSocket(remote[st.S])
+			m := socket.NewMessage()
+			m.SetMtype(erpc.TypeCall)
+			m.SetSeq(int32(100 + i))
+			m.SetServiceMethod(CallRoute)
+			m.SetBodyCodec('j')
+			m.SetBody(&Arg{Tag: tag})
+			raw.WriteMessage(m)
+			select {
+			case <-b.Entered:
+			case <-time.After(2 * time.Second):
+				drift = append(drift, fmt.Sprintf("step %d: handler of %s not entered", i, st.S))
+			}
+		case "endh":
+			rec.Emit("Op", "op", "endh", "s", st.S, "u", "")
+			if b := holds[st.S]; b != nil {
+				releaseHold(b)
+				delete(holds, st.S)
+			}
+			time.Sleep(500 * time.Microsecond)
 		}
+		if !st.Quiet {
+			continue // a Close / SetID is still blocked behind a running handler: not a quiescent point
+		}
+		if !waitAsync(3 * time.Second) {
+			rec.Emit("Stuck", "step", i)
+		}
+		// closed sessions finish their disconnect asynchronously
+		WaitUntil(time.Second, func() bool {
+			for _, nme := range order {
+				s := sess[nme]
+				if !s.Health() {
+					select {
+					case <-s.CloseNotify():
+						if disc.Count(nme) == 0 {
+							return false
+						}
+					default:
+						return false
+					}
+				}
+			}
+			return true
+		})
 		// quiescent point: probe the index
 		time.Sleep(200 * time.Microsecond)
 		var rng [][]string
